@@ -3,7 +3,6 @@
 use crate::core::*;
 use crate::props::{c01, Meta};
 use crate::space::etok::Render;
-use crate::space::TextSpace;
 use crate::subject;
 use oq3_parser::{LexedStr, SyntaxKind};
 use oq3_semantics::syntax_to_semantics::parse_source_string;
@@ -263,8 +262,10 @@ pub fn gating_oracle(text: &str, ctx: &mut Ctx) {
 
 pub fn spaces(tier: Tier, _seed: u64) -> Vec<Box<dyn Space>> {
     let mut v: Vec<Box<dyn Space>> = Vec::new();
-    v.push(Box::new(Splice { e: c01::etok(false, 2, Render::Spaced) }));
-    v.push(TextSpace::toks(c01::etok(true, if tier.is_thorough() { 3 } else { 2 }, Render::Spaced), gating_oracle));
-    v.push(TextSpace::toks(c01::etok(false, 3, Render::Tight), gating_oracle));
+    if let Ok(e) = c01::etok(false, 2, Render::Spaced) {
+        v.push(Box::new(Splice { e }));
+    }
+    v.push(crate::props::c01::tok_space(true, if tier.is_thorough() { 3 } else { 2 }, Render::Spaced, gating_oracle));
+    v.push(crate::props::c01::tok_space(false, 3, Render::Tight, gating_oracle));
     v
 }
